@@ -438,6 +438,29 @@ pub fn run(ctx: &mut Ctx) {
                 locality!(ctx, "parse_ec_parameters", parse_ec_parameters, decl_ec, &b, &x, (kind, field, sk));
             }
         }
+        // content + signature under both flag values (declared length = content, then the signature form the flag selects)
+        for (newform, usedh) in [(true, true), (false, true), (true, false), (false, false)] {
+            let mut w = W::new();
+            if usedh {
+                gen::dh(r, gen::TINY).enc(&mut w);
+            } else {
+                gen::ecdh(r).enc(&mut w);
+            }
+            gen::sig(r, gen::TINY, newform).enc(&mut w);
+            let mut another = W::new();
+            gen::sig(r, gen::TINY, newform).enc(&mut another);
+            for (kind, field, b) in variants(r, &w) {
+                for (sk, x) in suffixes(r, &b, another.b.clone()) {
+                    let tag = (kind, field, sk, newform);
+                    match (newform, usedh) {
+                        (true, true) => locality!(ctx, "parse_content_and_signature(dh,true)", |i| parse_content_and_signature(i, parse_dh_params, true), |b: &[u8]| d_dh(b).and_then(|o| be(b, o + 2, 2).map(|l| o + 4 + l)), &b, &x, tag),
+                        (false, true) => locality!(ctx, "parse_content_and_signature(dh,false)", |i| parse_content_and_signature(i, parse_dh_params, false), |b: &[u8]| d_dh(b).and_then(|o| be(b, o, 2).map(|l| o + 2 + l)), &b, &x, tag),
+                        (true, false) => locality!(ctx, "parse_content_and_signature(ecdh,true)", |i| parse_content_and_signature(i, parse_ecdh_params, true), |b: &[u8]| d_ecdh(b).and_then(|o| be(b, o + 2, 2).map(|l| o + 4 + l)), &b, &x, tag),
+                        _ => locality!(ctx, "parse_content_and_signature(ecdh,false)", |i| parse_content_and_signature(i, parse_ecdh_params, false), |b: &[u8]| d_ecdh(b).and_then(|o| be(b, o, 2).map(|l| o + 2 + l)), &b, &x, tag),
+                    }
+                }
+            }
+        }
         // signatures
         let mut w = W::new();
         gen::sig(r, gen::TINY, true).enc(&mut w);
